@@ -142,6 +142,7 @@ def script_of(case):
     #   report and the .sol file; whatever it does to values and message, the code written is the code the backend reported)
     # px == 7: sol:chk:fail with the violating answer of px == 2: the run ends with the dedicated code 150-159 exactly when the
     #   solution check looks at the answer (every class except "infeasible"), else with the reported code
+    # px == 8: alg:kappa=2 ("ignored when there is no optimal basis"): the .kappa suffix is returned exactly for the solved class
     # px == 4: IIS requested (alg:iisfind=1); the scripted IIS run reports the status code+1000 -> folded to IIS_CODE(code)
     return {'code': code, 'msg': 'scripted result', 'altsols': 2 if px == 3 else 0, 'iis_code': iis_code(code) if px == 4 else 'none', 'iis': 'ramp' if px == 4 else 'none', 'x': (X_VIOL if px in (2, 7) else '1,0.5' if px in ROUND_OF else X_SPEC) if px else 'none', 'y': Y_SPEC if py else 'none',
             'obj': OBJ_SPEC if po else 'none', 'ismip': 1 if px in ROUND_OF else mip, 'rays': 1}
@@ -164,7 +165,8 @@ def observe(binary, workdir, nl, case):
                        env_opts={'vdriver_options': 'sol:stub=%s' % os.path.join(workdir, 'alt')} if alt else
                        {'vdriver_options': 'alg:iisfind=1'} if case[1] == 4 else
                        {'vdriver_options': 'mip:round=%d' % ROUND_OF[case[1]]} if case[1] in ROUND_OF else
-                       {'vdriver_options': 'sol:chk:fail'} if case[1] == 7 else None)
+                       {'vdriver_options': 'sol:chk:fail'} if case[1] == 7 else
+                       {'vdriver_options': 'alg:kappa=2'} if case[1] == 8 else None)
     if case[1] == 4: o_calls = [c.get('op') for c in (r.get('dump') or {}).get('calls', [])]
     o = {'rc': r['rc'], 'sol': None, 'err': r['err'][-300:]}
     if case[1] == 4: o['iis_run'] = 'ComputeIIS' in o_calls
@@ -182,7 +184,8 @@ def observe(binary, workdir, nl, case):
             o.update(sol=True, first=first, objtxt=m.group(1) if m else None,
                      objword='objective' in first, objno=s['objno'], code=s['code'],
                      nprimals=s['nprimals'], nduals=s['nduals'], tolviol='Tolerance violations' in s['message'],
-                     unbdd=any(x['name'] == 'unbdd' for x in s['suffixes']), dunbdd=any(x['name'] == 'dunbdd' for x in s['suffixes']))
+                     unbdd=any(x['name'] == 'unbdd' for x in s['suffixes']), dunbdd=any(x['name'] == 'dunbdd' for x in s['suffixes']),
+                     kappa=any(x['name'] == 'kappa' for x in s['suffixes']))
         except (ValueError, IndexError) as e:
             o.update(sol=False, parse_error=str(e), raw=r['sol'][-300:])
     return o
@@ -222,6 +225,8 @@ def judge(orc, case, o):
             f.append(('solution check ran' if o.get('tolviol') else 'solution check skipped', {'message': o['first']}))
     elif px == 1 and o.get('tolviol'):
         f.append(('solution check reports a feasible answer', {'message': o['first']}))
+    if px == 8 and bool(o.get('kappa')) != (orc.cat(code) == 'solved'):
+        f.append(('kappa returned' if o.get('kappa') else 'kappa missing', {'message': o['first']}))
     if px == 3 and o.get('altcodes') != [code, code]:
         f.append(('alternative solution code', {'alt_codes': o.get('altcodes')}))
     # rays (alg:rays default 3): .unbdd is documented for "objective unbounded", .dunbdd for "constraints infeasible";
@@ -379,6 +384,7 @@ def _main(chk, tier, binary):
     cases += [(code, 4, 1, 1, mip) for mip in mips for code in range(LO, HI + 1)]
     cases += [(code, px, 1, 1, 1) for px in sorted(ROUND_OF) for code in range(LO, HI + 1)]
     cases += [(code, 7, 1, 1, mip) for mip in mips for code in range(LO, HI + 1)]
+    cases += [(code, 8, 1, 1, mip) for mip in mips for code in range(LO, HI + 1)]
     nw = vcheck.NCPU
     jobs = [(binary, i, nl, cases[i::nw], ranges) for i in range(nw)]
     with multiprocessing.get_context('fork').Pool(nw) as pool:
@@ -420,6 +426,8 @@ def _main(chk, tier, binary):
            'infeasibility ray missing': 'C10 .dunbdd ray not returned for the infeasible class: %s',
            'alternative solution code': 'C10 alternative-solution .sol files (sol:stub) do not carry the reported code for %s',
            'sol:chk:fail code': 'C10 sol:chk:fail with a violating answer: the .sol code is not 150-159 where the solution check applies / not the reported code where it does not, for %s',
+           'kappa returned': 'C10 .kappa suffix returned (alg:kappa=2) for a code outside the solved class: %s',
+           'kappa missing': 'C10 .kappa suffix not returned (alg:kappa=2) for the solved class: %s',
            'solution check skipped': 'C10 violating answer not reported by the solution check (treated as infeasible class) for %s',
            'solution check ran': 'C10 solution check ran on an answer of the infeasible class (sol:chk:infeas=0) for %s',
            'solution check reports a feasible answer': 'C10 solution check reports a feasible answer for %s'}
